@@ -31,8 +31,19 @@ def _oracle():
     return os.path.join(vlib.LEAN, ".lake", "build", "bin", EXE)
 
 
+OPS_SEEN = set()      # opcode names in the opcode lists of the machines emitted in this run
+REGISTRY = {}         # {"names": [...], "dups": [...], "skipped": [...]} from the `ops` mode
+
+
 def run_pair(hbin, args, timeout=900):
     rc, impl, err = vlib.run([hbin] + args, timeout=timeout, env=vlib.goenv())
+    for l in impl.splitlines():
+        if l.startswith("C "):
+            for f in l.split():
+                if f.startswith("ops=") and len(f) > 4:
+                    OPS_SEEN.update(f[4:].split(","))
+        elif l.startswith("OPS "):
+            REGISTRY["names"] = l.split()[1].split(",")
     if rc != 0:
         raise RuntimeError("harness failed rc=%s: %s" % (rc, err[-2000:]))
     rc2, model, err2 = vlib.run([_oracle()], input_bytes=impl.encode(), timeout=timeout)
@@ -46,6 +57,11 @@ def instances(model_text):
     res = []
     cur = None
     for l in model_text.splitlines():
+        if l.startswith("OPSDUP "):
+            f = l.split()
+            REGISTRY["dups"] = [] if f[2] == "-" else f[2].split(",")
+        elif l.startswith("OPSKIP"):
+            REGISTRY["skipped"] = l.split()[1:]
         if l.startswith("CASE "):
             f = l.split()
             cur = {"kind": f[2], "mustfail": f[3].endswith("=1"), "what": "", "result": "?", "cls": "", "wf": None,
@@ -428,6 +444,19 @@ _start:
 """
 
 
+def bondgo_wiring(text):
+    """what the IO declarations of a bondgo source ask for in plain -mpm mode: an Output and an Input made with the same id
+    are one processor-to-processor bond; an Input id nobody writes is a machine input, an Output id nobody reads a machine
+    output.  -> (inputs, outputs, processor bonds)"""
+    import re
+    ins = [int(x) for x in re.findall(r"bondgo\.Make\(bondgo\.Input,\s*(\d+)\)", text)]
+    outs = [int(x) for x in re.findall(r"bondgo\.Make\(bondgo\.Output,\s*(\d+)\)", text)]
+    ext_in = len({i for i in ins if i not in outs})
+    ext_out = len({o for o in outs if o not in ins})
+    internal = len([i for i in ins if i in outs])
+    return ext_in, ext_out, internal
+
+
 def saved_machines(rep, thorough):
     """front-ends that save a machine themselves (JSON): bondgo in its multi-processor modes and bmbuilder, with standard and
     non-standard register sizes.  -> [(kind, what, json path, [assembly file per processor])], notes.
@@ -451,6 +480,8 @@ def saved_machines(rep, thorough):
             runs += [("taps1.go", ["-mpm"], rs) for rs in (12, 16)] + [("taps2.go", ["-mpm"], rs) for rs in (12, 16)]
             runs += [("scoped1.go", ["-mpm"], rs) for rs in (8, 24)] + [("scoped2.go", ["-mpm"], rs) for rs in (12, 24)]
         for prog, opts, rs in runs:
+            # the programs are written with uint8; for the other standard sizes the compiler wants the matching basic type
+            open(os.path.join(d, prog), "w").write(BONDGO_PROGS[prog].replace("uint8", "uint%d" % rs) if rs in (16, 32, 64) else BONDGO_PROGS[prog])
             outj = os.path.join(d, "bg-%s%s-%d.json" % (prog, "".join(opts), rs))
             asmp = outj[:-5] + "-asm"
             for f in [outj] + [os.path.join(d, x) for x in os.listdir(d) if x.startswith(os.path.basename(asmp) + "_")]:
@@ -462,7 +493,12 @@ def saved_machines(rep, thorough):
             while os.path.exists("%s_%d" % (asmp, len(asms))):
                 asms.append("%s_%d" % (asmp, len(asms)))
             if rc == 0 and os.path.exists(outj):
-                res.append(("bondgo:" + "+".join(o.lstrip("-") for o in opts), "%s register-size=%d" % (prog, rs), outj, asms))
+                claims = []
+                if opts == ["-mpm"]:
+                    # plain -mpm: the wiring follows from the declared IO ids alone.  With -cascading-io the tool adds a wiring
+                    # of its own (and leaves ports open on the unchanged tree): no wiring claim is made there.
+                    claims = ["pb", "xw=%d,%d,%d" % bondgo_wiring(BONDGO_PROGS[prog])]
+                res.append(("bondgo:" + "+".join(o.lstrip("-") for o in opts), "%s register-size=%d" % (prog, rs), outj, claims + asms))
             else:
                 notes.append("bondgo %s on %s with register size %d saved no machine: rc=%s %s" % (" ".join(opts), prog, rs, rc, (so + se)[-200:]))
         # the multi-abstract-assembly input: one assembly text per processor + the bonds
@@ -480,7 +516,7 @@ def saved_machines(rep, thorough):
             rc, so, se = vlib.run([bg, "-multi-abstract-assembly-input", "-input-file", maa, "-register-size", str(rs), "-save-bondmachine", outj],
                                   timeout=90, cwd=d)
             if rc == 0 and os.path.exists(outj):
-                res.append(("bondgo:multi-abstract-assembly", "maa.json register-size=%d" % rs, outj, maa_asms))
+                res.append(("bondgo:multi-abstract-assembly", "maa.json register-size=%d" % rs, outj, ["pb", "xw=1,2,1"] + maa_asms))
             else:
                 notes.append("bondgo -multi-abstract-assembly-input with register size %d saved no machine: rc=%s %s" % (rs, rc, (so + se)[-200:]))
     except vlib.BuildError as e:
@@ -518,7 +554,7 @@ def run(rep):
                    "BMV.Isa as the meaning of 'the simulator does not fail' (tied to procbuilder.VM.Step by C01)"])
     rep.assumptions += [
         "wfbm_sim_safe is stated for processors over the opcode set BMV.Isa models without a data-dependent failure "
-        "(nop rset inc dec clr add cpy j jz i2r i2rw r2o r2owa) and register sizes 8/16/32/64; for other opcodes the validator's "
+        "(nop rset inc dec clr add cpy mult j jz i2r i2rw r2o r2owa) and register sizes 8/16/32/64; for other opcodes the validator's "
         "verdict is per instance only",
         "assemble_wf / assemble_rejects_* are about the model assembler of the C05 subset; that the model assembler IS the real one "
         "is C05's exact structural tie",
@@ -532,6 +568,9 @@ def run(rep):
         _, model = run_pair(hbin, ["gen", str(n)])
         insts += instances(model)
         _, model = run_pair(hbin, ["lib", vlib.REPO, "nodyn"])
+        insts += instances(model)
+        # the opcode registry itself + one source per high-level matcher pattern of every opcode (with and without the chooser)
+        _, model = run_pair(hbin, ["ops"])
         insts += instances(model)
         sets, notes = front_end_files(rep, thorough)
         for kind, files in sets:
@@ -598,8 +637,22 @@ def run(rep):
                        "bondgo's single-processor output (-save-machine) is a processor, not a BondMachine: not an instance of this property",
                        "dynamic opcode families (rsetsN, …) are outside BMV.Arch.layout: such machines get the verdict 'unmodelled'"] + notes,
     })
+    names = REGISTRY.get("names", [])
+    rep.coverage["static_opcodes"] = {
+        "registered": len(names), "registered_twice": REGISTRY.get("dups", []),
+        "in_the_opcode_list_of_some_emitted_machine": len(OPS_SEEN & set(names)),
+        "never_emitted_in_this_run": sorted(set(names) - OPS_SEEN),
+        "note": "an opcode is emitted by basm only through a high-level matcher pattern (HLAssemblerMatch); the ones never emitted have "
+                "no pattern (or only one this run's synthesiser does not know: %s) or are produced by bondgo only" % (" ".join(REGISTRY.get("skipped", [])) or "-")}
     # ---- outcome ----
     bad = [(i, judge(i)) for i in insts if judge(i)]
+    if REGISTRY.get("dups") and not bad:
+        # (when a generated source uses the opcode, that instance is reported below, with its source)
+        rep.violation({"property": PROP, "kind": "property-fails-on-impl", "tag": "opcode-registry-duplicate",
+                       "why": "procbuilder.Allopcodes registers an opcode name twice: basm builds a processor's opcode list by scanning "
+                              "that registry, so a program using it gets the name twice (and one more opcode bit than needed)",
+                       "input": "procbuilder.Allopcodes", "source": None, "duplicates": REGISTRY["dups"]}, tag="opcode-registry-duplicate")
+        return
     kfs = vlib.load_known_findings(PROP)
     reported = set()
     rest = []
@@ -620,6 +673,7 @@ def run(rep):
         i, why, tag = rest[0]
         rep.violation({"property": PROP, "kind": "property-fails-on-impl", "tag": tag, "why": why, "front_end": i["kind"],
                        "input": i["what"], "source": source_of(i), "result": i["result"] + " " + i["cls"], "reasons": i["reasons"],
+                       "opcode_registry_duplicates": REGISTRY.get("dups", []),
                        "other_failing_instances": len(rest) - 1}, tag=tag)
     elif not pr["ok"] or not insts:
         broken = list(pr["broken"]) or ["no front-end instance was evaluated"]
